@@ -74,6 +74,32 @@ pub struct Stats {
     pub json_bytes: u64,
     pub requests: u64,
     pub subjects_not_compared_truncated: u64,
+    pub directives_compared: u64,
+    pub directive_args_compared: u64,
+    pub hidden_directives_checked: u64,
+    /// depths of the interface hierarchies of the introspected schemas (see `interface_chain_depth`)
+    pub chain_depths: BTreeSet<usize>,
+    pub subjects_with_chain_depth_ge3: u64,
+    /// (context, object, hidden interface) triples where the hidden interface has a visible interface above it
+    pub hidden_intermediate_interfaces: u64,
+}
+
+/// Length (number of interfaces) of the longest path object -> interface -> ... that follows *nearest* declared
+/// interfaces, i.e. the depth of the interface hierarchy: an interface counts 1 + the deepest interface among
+/// those it implements.
+pub fn interface_chain_depth(m: &IModel) -> usize {
+    fn depth(m: &IModel, n: &str, guard: usize) -> usize {
+        if guard == 0 {
+            return 0;
+        }
+        1 + m.implements_of(n).iter().map(|i| depth(m, i, guard - 1)).max().unwrap_or(0)
+    }
+    m.types
+        .values()
+        .filter(|t| matches!(t.kind, IKind::Interface { .. }))
+        .map(|t| depth(m, &t.name, 16))
+        .max()
+        .unwrap_or(0)
 }
 
 fn run_query(s: &Subject, text: String, flags: Option<Flags>, st: &mut Stats) -> Result<J, Problem> {
@@ -299,6 +325,11 @@ pub fn verify(s: &Subject, want: &Want, st: &mut Stats) -> Verified {
     st.interface_interfaces_null += rb.interface_interfaces_null;
     st.truncated_refs += rb.truncated_refs;
     st.max_chain = st.max_chain.max(rb.max_chain);
+    let depth = interface_chain_depth(&rb.model);
+    st.chain_depths.insert(depth);
+    if depth >= 3 {
+        st.subjects_with_chain_depth_ge3 += 1;
+    }
     for e in &rb.errors {
         let class = if e.contains(" lists interface ") {
             "i1_transitive_interface"
@@ -437,6 +468,14 @@ fn flush_stats(run: &Run, st: &Stats) {
     run.count("requests_executed", st.requests);
     run.count("subjects_not_compared_because_truncated", st.subjects_not_compared_truncated);
     run.seen("deepest_type_reference_levels_per_shard", &st.max_chain.to_string());
+    run.count("custom_directives_compared", st.directives_compared);
+    run.count("custom_directive_arguments_compared", st.directive_args_compared);
+    run.count("hidden_custom_directives_checked_absent", st.hidden_directives_checked);
+    run.count("subjects_with_interface_chain_depth_ge3", st.subjects_with_chain_depth_ge3);
+    run.count("hidden_intermediate_interface_cases", st.hidden_intermediate_interfaces);
+    for d in &st.chain_depths {
+        run.seen("interface_chain_depth_seen", &d.to_string());
+    }
     run.evals(st.requests);
 }
 
@@ -497,6 +536,49 @@ pub fn check_static(
             }
         }
     }
+    // custom directive definitions: exactly the visible ones, each with exactly its visible arguments
+    // (which built-in directives are listed is the server's choice)
+    if let Some(rb) = &v.rebuilt {
+        const BUILTIN: [&str; 5] = ["skip", "include", "deprecated", "specifiedBy", "oneOf"];
+        for d in rb.directives.iter().filter(|d| !BUILTIN.contains(&d.as_str())) {
+            st.directives_compared += 1;
+            match exp.directives.get(d) {
+                None => {
+                    let how = if vm.dirs.iter().any(|x| &x.name == d) { "hidden in this context" } else { "not defined by the source" };
+                    problems.push(pb("i3_hidden_directive_listed", format!("I3 __schema.directives lists @{d}, which is {how}")));
+                }
+                Some(want_args) => {
+                    let got: BTreeSet<String> = rb.directive_args.get(d).map(|a| a.iter().cloned().collect()).unwrap_or_default();
+                    st.directive_args_compared += want_args.len().max(got.len()) as u64;
+                    for a in got.difference(want_args) {
+                        let how = if vm.dirs.iter().any(|x| &x.name == d && x.args.contains(a)) {
+                            "hidden in this context"
+                        } else {
+                            "not defined by the source"
+                        };
+                        problems.push(pb("i3_hidden_directive_argument_listed", format!("I3 @{d} lists the argument {a:?}, which is {how}")));
+                    }
+                    for a in want_args.difference(&got) {
+                        problems.push(pb("i2_directive_argument_missing", format!("I2 @{d} lacks the visible argument {a:?}")));
+                    }
+                }
+            }
+        }
+        for d in exp.directives.keys() {
+            if !rb.directives.contains(d) {
+                problems.push(pb("i2_directive_missing", format!("I2 __schema.directives lacks the visible custom directive @{d}")));
+            }
+        }
+        st.hidden_directives_checked += (vm.dirs.len() - exp.directives.len()) as u64;
+    }
+    // how often this context has a hidden interface between a visible interface and a visible object
+    for t in exp.model.types.values().filter(|t| matches!(t.kind, IKind::Object { .. })) {
+        for mid in vm.full.implements_of(&t.name) {
+            if exp.hidden.contains(mid) && vm.full.implements_of(mid).iter().any(|up| exp.model.types.contains_key(up)) {
+                st.hidden_intermediate_interfaces += 1;
+            }
+        }
+    }
     let info = json!({
         "flags": f.label(),
         "hidden_names": exp.hidden.len(),
@@ -532,12 +614,14 @@ fn model_mentions(m: &IModel, name: &str) -> bool {
 }
 
 fn static_part(run: &Run) {
-    let vm = vis::hand_model();
+    // visibility rules on custom directive definitions and their arguments
+    let dirvis = run.feature("custom_directive_visibility");
+    let vm = vis::hand_model(dirvis);
     if let Err(e) = vm.check_naming() {
         run.inconclusive(&format!("harness error: V1 hand model breaks its naming rule: {e}"));
         return;
     }
-    let schema = match catch(vis::schema) {
+    let schema = match catch(|| vis::schema(dirvis)) {
         Ok(s) => s,
         Err(p) => {
             run.violation("C18-V1|build-panic", &format!("building the static family V1 panicked: {p}"), json!({"flavour": "static-V1"}));
@@ -569,7 +653,8 @@ fn static_part(run: &Run) {
             run.violation(
                 &format!("C18-V1|{}|{}", f.label(), problems[0].text),
                 &format!("static family V1 under [{}]: {} problem(s): {}", f.label(), problems.len(), texts(&problems).join(" || ")),
-                json!({"flavour": "static-V1", "flags_bits": bits, "flags": f.label(), "problems": texts(&problems)}),
+                json!({"flavour": "static-V1", "flags_bits": bits, "flags": f.label(), "custom_directive_visibility": dirvis,
+                       "problems": texts(&problems)}),
             );
         }
     }
@@ -935,8 +1020,9 @@ fn replay(run: &Run, path: &std::path::Path) {
             }
         }
         Some("static-V1") => {
-            let vm = vis::hand_model();
-            let schema = vis::schema();
+            let dirvis = case["custom_directive_visibility"].as_bool().unwrap_or(true);
+            let vm = vis::hand_model(dirvis);
+            let schema = vis::schema(dirvis);
             let f = Flags::from_bits(case["flags_bits"].as_u64().unwrap_or(0) as u8);
             check_v1_context(&schema, &vm, f, &mut st).0
         }
@@ -960,9 +1046,12 @@ fn replay(run: &Run, path: &std::path::Path) {
 pub fn main() {
     let mut run = Run::from_args(
         "exploration",
-        "static family V1 (hand-written derive schema; visibility predicates read request data) introspected under all 16 \
+        "static family V1 (hand-written derive schema; visibility predicates read request data; nested derive interfaces \
+         four levels deep with the objects registered under the innermost one only, chains whose middle interface is \
+         hidden by a predicate / always; custom directive definitions with visibility rules) introspected under all 16 \
          flag combinations; random dynamic type systems (descriptions, deprecations with/without reason on fields, \
-         arguments, input fields and enum values, default values, specifiedByURL, oneOf, interface inheritance DAGs, \
+         arguments, input fields and enum values, default values, specifiedByURL, oneOf, interface inheritance DAGs and \
+         straight chains of 3-5 interfaces, \
          unions, mutation/subscription roots, every type reachable through a randomly chosen route) built through \
          async_graphql::dynamic. Each subject is asked the standard introspection query, the legacy query, and \
          __type(name:) for every listed type through the real Schema::execute; the JSON is rebuilt into a client \
@@ -990,6 +1079,9 @@ pub fn main() {
         "legacy_queries_compared",
         "sdl_models_compared",
         "hidden_names_scanned_for",
+        "subjects_with_interface_chain_depth_ge3",
+        "hidden_intermediate_interface_cases",
+        "custom_directives_compared",
     ] {
         run.require_counter(c);
     }
